@@ -1,5 +1,6 @@
 (* Extraction of the executable model and specification of C04 (ExtrOcamlBasic only). *)
-From MptV Require Import Base.Mem C04.ArrayModel C04.ArraySpec.
+From MptV Require Import Base.Mem C04.ArrayModel C04.ArraySpec C04.ArrayEnc.
 Require Import ExtrOcamlBasic.
 Extraction "c04_model.ml" run srun step init abs invb view hget alloc_size
-  target accepted svec elem_at offset_of unused_of map_get map_values.
+  target accepted svec elem_at offset_of unused_of map_get map_values
+  erun e0 e_view.
